@@ -163,9 +163,12 @@ Proof.
       pose proof (N.div_mod v 128 ltac:(lia)) as Hdm.
       pose proof (N.mod_lt v 128 ltac:(lia)) as Hml.
       rewrite IH.
-      * f_equal. rewrite pow_split. fold p. nia.
+      * f_equal. rewrite pow_split. fold p.
+        transitivity (x + (128 * (v / 128) + v mod 128) * p); [ring|rewrite <- Hdm; reflexivity].
       * lia.
-      * rewrite pow_split. fold p. nia.
+      * rewrite pow_split. fold p.
+        assert (Hmp : v mod 128 * p <= 127 * p) by (apply N.mul_le_mono_r; clear - Hml; lia).
+        clear - Hmp Hx. lia.
       * unfold q in Hv. rewrite (split_hi i) in Hv by lia.
         set (q' := 2^(64 - 7 * N.of_nat (S i))) in *. apply N.div_lt_upper_bound; lia.
 Qed.
@@ -672,7 +675,8 @@ Proof.
   change (0 + 7) with 7 in HL. rewrite HL.
   assert (Hsz : N.size v <= 64) by (apply size_le_iff; exact Hv).
   pose proof uv_size_sweep as H. rewrite forallb_forall in H.
-  specialize (H (N.size v) (in_range_list 65 _ ltac:(lia))). unfold uv_size_ok in H.
+  assert (Hin : N.size v < N.of_nat 65) by lia.
+  specialize (H (N.size v) (in_range_list 65 (N.size v) Hin)). unfold uv_size_ok in H.
   cbv zeta in H.
   apply andb_true_iff in H. destruct H as [H H3]. apply andb_true_iff in H. destruct H as [H1 H2].
   apply Nat.eqb_eq in H1. apply Nat.leb_le in H2. apply Nat.leb_le in H3.
@@ -770,4 +774,53 @@ Proof.
   apply andb_true_iff in Hin. destruct Hin as [Hin H3]. apply andb_true_iff in Hin. destruct Hin as [H1 H2].
   apply Nat.eqb_eq in H1. apply Nat.leb_le in H2. apply Nat.leb_le in H3.
   rewrite <- H1. auto.
+Qed.
+
+(* ------------------------------------------------------------------ *)
+(* The encoders emit bytes                                             *)
+(* ------------------------------------------------------------------ *)
+Definition is_byte (b : N) : Prop := b < 256.
+
+Lemma land255_byte v : is_byte (N.land v 255).
+Proof. unfold is_byte. rewrite land255. apply N.mod_lt. lia. Qed.
+Lemma lor128_byte n : n < 256 -> is_byte (N.lor n 128).
+Proof. intros Hn. unfold is_byte. apply (lor_lt_pow2 n 128 8); [exact Hn|reflexivity]. Qed.
+
+Lemma enc_uv_loop_bytes : forall f v, Forall is_byte (enc_uv_loop f v).
+Proof.
+  induction f as [|f IH]; intros v.
+  - rewrite enc_uv_0. constructor; [apply land255_byte|constructor].
+  - rewrite enc_uv_S. destruct (v <? 128).
+    + constructor; [apply land255_byte|constructor].
+    + constructor; [apply lor128_byte, land255_byte|apply IH].
+Qed.
+Theorem enc_uv_bytes v : Forall is_byte (enc_uv v).
+Proof. apply enc_uv_loop_bytes. Qed.
+Theorem enc_sv_bytes v : Forall is_byte (enc_sv v).
+Proof. apply enc_uv_loop_bytes. Qed.
+
+Lemma shiftr_lt x k : x < W64 -> k <= 64 -> N.shiftr x k < 2^(64 - k).
+Proof.
+  intros Hx Hk. rewrite N.shiftr_div_pow2.
+  apply N.div_lt_upper_bound; [apply N.pow_nonzero; lia|].
+  rewrite <- N.pow_add_r. replace (k + (64 - k)) with 64 by lia. exact Hx.
+Qed.
+
+Lemma enc_vf_loop_bytes : forall f x, x < W64 -> Forall is_byte (enc_vf_loop f x).
+Proof.
+  induction f as [|f IH]; intros x Hx.
+  - rewrite enc_vf_0. constructor; [|constructor]. exact (shiftr_lt x 56 Hx ltac:(lia)).
+  - rewrite enc_vf_S.
+    assert (Hn : N.shiftr x 57 < 128) by exact (shiftr_lt x 57 Hx ltac:(lia)).
+    destruct (wrap64 (N.shiftl x 7) =? 0).
+    + constructor; [|constructor]. unfold is_byte. lia.
+    + constructor; [apply lor128_byte; lia|]. apply IH. unfold wrap64. apply N.mod_lt. unfold W64. lia.
+Qed.
+Theorem enc_vf_raw_bytes x : x < W64 -> Forall is_byte (enc_vf_raw x).
+Proof. apply enc_vf_loop_bytes. Qed.
+
+Theorem enc_f64le_bytes bits : Forall is_byte (enc_f64le_bits bits).
+Proof.
+  unfold enc_f64le_bits. generalize 8%nat as n. intros n. revert bits.
+  induction n as [|n IH]; intros bits; cbn [le_bytes]; constructor; [apply land255_byte|apply IH].
 Qed.
